@@ -16,6 +16,7 @@ from typing import Annotated
 
 import z3
 
+from vp.world import raised_in_harness as _rih
 from vp import symx, util
 from vp.symx import oblige, zint
 from vp.world import SymWorld, NativeWorld, model_values, evalnum
@@ -396,7 +397,7 @@ def replay(ob):
         text.append(f"native parameters {nw.consts}")
         text.append(f"REAL CODE RAISED {type(e).__name__}: {e}")
         text.append(traceback.format_exc(limit=-3))
-        return {"confirmed": True, "text": "\n".join(text)}
+        return {"confirmed": not _rih(e), "text": "\n".join(text)}
     text.append(f"native parameters {nw.consts}")
     mods = util.xgcm_modules()
     symx.CUR = symx.Ctx([])
